@@ -1,5 +1,509 @@
 import AslModel.Map
 import AslModel.HashMap
-/-! C02 — placeholder while the proofs are being written -/
+import AslProofs.Map
+import AslProofs.HashMap
+/-!
+# C02 — Map, Dic, HashMap, HashDic and Set behave as finite maps and sets
+
+Property theorems only (helper lemmas: `AslProofs/Map.lean`, `AslProofs/HashMap.lean`).  The specification is
+the mathematical finite map `K → Option V` with `set / erase / merge`, and membership for sets.  It is written
+from the abstract semantics, not from the code: the abstraction of a container is the *linear lookup over its
+enumeration*, so the theorems say that the binary search / the bucket walk find exactly what a reader of the
+enumeration would find.  All hash-map theorems hold for an arbitrary hash function `h` (every collision
+pattern), an arbitrary positive table size and any growth history.
+-/
 namespace C02
+open AslModel AslProofs
+open AslProofs.Map (StrictOrder Sorted IndexSpec lookup KeysNodup)
+open AslProofs.HashMap (Inv WF abs)
+
+/-! ## the abstract finite map -/
+
+abbrev FinMap (K V : Type) := K → Option V
+
+namespace FinMap
+variable {K V : Type} [DecidableEq K]
+def empty : FinMap K V := fun _ => none
+def set (f : FinMap K V) (k : K) (v : V) : FinMap K V := fun x => if x = k then some v else f x
+def erase (f : FinMap K V) (k : K) : FinMap K V := fun x => if x = k then none else f x
+/-- entries of `g` win -/
+def merge (f g : FinMap K V) : FinMap K V := fun x => (g x).or (f x)
+/-- non-const `operator[]`: creates the default value when the key is missing -/
+def touch (f : FinMap K V) (k : K) (dflt : V) : FinMap K V := fun x => if x = k then some ((f k).getD dflt) else f x
+end FinMap
+
+/-! ## ordered map (`Map`, `Dic`) -/
+section Ordered
+variable {K V : Type}
+
+/-- `compare<int>` is the sign of a strict total order -/
+theorem cmpInt_strict : StrictOrder Map.cmpInt := by
+  refine ⟨?_, ?_, ?_⟩
+  · intro a b; unfold Map.cmpInt
+    by_cases h1 : a < b
+    · have : ¬ a = b := by omega
+      simp [h1, this]
+    · by_cases h2 : a = b <;> simp [h1, h2]
+  · intro a b; unfold Map.cmpInt
+    by_cases h1 : a < b
+    · have : ¬ b < a := by omega
+      have h3 : ¬ b = a := by omega
+      simp [h1, this, h3]
+    · by_cases h2 : a = b
+      · subst h2; simp
+      · have : b < a := by omega
+        simp [h1, h2, this]
+  · intro a b c; unfold Map.cmpInt
+    by_cases h1 : a < b <;> by_cases h2 : b < c
+    · have : a < c := by omega
+      simp [h1, h2, this]
+    · by_cases h3 : b = c <;> simp [h1, h2, h3]
+    · by_cases h3 : a = b <;> simp [h1, h2, h3]
+    · by_cases h3 : a = b <;> simp [h1, h3]
+
+theorem cmpBytes_eq_iff : ∀ a b : List UInt8, Map.cmpBytes a b = .eq ↔ a = b
+  | [], [] => by simp [Map.cmpBytes]
+  | [], _ :: _ => by simp [Map.cmpBytes]
+  | _ :: _, [] => by simp [Map.cmpBytes]
+  | a :: s, b :: t => by
+    simp only [Map.cmpBytes, List.cons.injEq]
+    by_cases h1 : a < b
+    · have : a ≠ b := fun e => by subst e; exact absurd h1 (UInt8.lt_irrefl a)
+      simp [h1, this]
+    · by_cases h2 : a = b
+      · simp [h2, cmpBytes_eq_iff s t]
+      · simp [h1, h2]
+
+theorem cmpBytes_gt_iff : ∀ a b : List UInt8, Map.cmpBytes a b = .gt ↔ Map.cmpBytes b a = .lt
+  | [], [] => by simp [Map.cmpBytes]
+  | [], _ :: _ => by simp [Map.cmpBytes]
+  | _ :: _, [] => by simp [Map.cmpBytes]
+  | a :: s, b :: t => by
+    simp only [Map.cmpBytes]
+    by_cases h1 : a < b
+    · have h3 : ¬ b < a := by rw [UInt8.lt_iff_toNat_lt] at *; omega
+      have h4 : ¬ b = a := by intro e; subst e; exact absurd h1 (UInt8.lt_irrefl b)
+      simp [h1, h3, h4]
+    · by_cases h2 : a = b
+      · subst h2; simp [h1, cmpBytes_gt_iff s t]
+      · have h3 : b < a := by
+          rw [UInt8.lt_iff_toNat_lt] at *
+          have : a.toNat ≠ b.toNat := fun e => h2 (UInt8.toNat_inj.mp e)
+          omega
+        have h4 : ¬ b = a := fun e => h2 e.symm
+        simp [h1, h2, h3]
+
+theorem cmpBytes_trans : ∀ a b c : List UInt8, Map.cmpBytes a b = .lt → Map.cmpBytes b c = .lt → Map.cmpBytes a c = .lt
+  | [], [], _ => by simp [Map.cmpBytes]
+  | [], _ :: _, [] => by simp [Map.cmpBytes]
+  | [], _ :: _, _ :: _ => by simp [Map.cmpBytes]
+  | _ :: _, [], _ => by simp [Map.cmpBytes]
+  | _ :: _, _ :: _, [] => by simp [Map.cmpBytes]
+  | a :: s, b :: t, c :: u => by
+    simp only [Map.cmpBytes]
+    intro h1 h2
+    by_cases ab : a < b
+    · by_cases bc : b < c
+      · have : a < c := by rw [UInt8.lt_iff_toNat_lt] at *; omega
+        simp [this]
+      · by_cases e : b = c
+        · subst e; simp [ab]
+        · simp [bc, e] at h2
+    · by_cases e1 : a = b
+      · subst e1
+        simp only [ab, if_false, if_true] at h1
+        by_cases bc : a < c
+        · simp [bc]
+        · by_cases e : a = c
+          · subst e
+            simp only [bc, if_false, if_true] at h2 ⊢
+            exact cmpBytes_trans s t u h1 h2
+          · simp [bc, e] at h2
+      · simp [ab, e1] at h1
+
+/-- `String::compare` (strcmp on NUL-free strings) is the sign of a strict total order -/
+theorem cmpBytes_strict : StrictOrder Map.cmpBytes := ⟨cmpBytes_eq_iff, cmpBytes_gt_iff, cmpBytes_trans⟩
+
+/-- **binary search.**  On every strictly ascending array and for every key, `Map::indexOf` terminates, never
+reads outside the array, and returns an index `r ≥ 0` holding the key iff the key is present, otherwise
+`-(p)-1` where `p` is the unique position with everything before `<` key `<` everything from `p` on
+(sizes 0, 1, 2, 3 are instances). -/
+theorem indexOf_spec {cmp : K → K → Ordering} (so : StrictOrder cmp) (l : List (K × V)) (key : K)
+    (hs : Sorted cmp l) : ∃ r, Map.indexOf cmp l key = some r ∧ IndexSpec cmp l key r :=
+  AslProofs.Map.indexOf_spec so l key hs
+
+variable [DecidableEq K]
+
+/-- the encoded result decides presence -/
+theorem indexOf_nonneg_iff_present {cmp : K → K → Ordering} (so : StrictOrder cmp) (l : List (K × V)) (key : K)
+    (hs : Sorted cmp l) : ∃ r, Map.indexOf cmp l key = some r ∧ (0 ≤ r ↔ (lookup key l).isSome) := by
+  obtain ⟨r, hr, hspec⟩ := AslProofs.Map.indexOf_spec so l key hs
+  refine ⟨r, hr, ?_⟩
+  constructor
+  · intro h
+    obtain ⟨_, _, hl⟩ := AslProofs.Map.present_of_nonneg so hs hspec h
+    simp [hl]
+  · intro h
+    apply Classical.byContradiction
+    intro hn
+    rw [AslProofs.Map.absent_of_neg so hspec (by omega)] at h
+    simp at h
+
+/-- operations of one ordered map; `add d` merges another map `d` -/
+inductive MOp (K V : Type) where
+  | set (k : K) (v : V)
+  | assign (k : K) (v : V)
+  | index (k : K)
+  | remove (k : K)
+  | clear
+  | add (d : List (K × V))
+
+/-- what the model (= the code, by K) does -/
+def MOp.run (cmp : K → K → Ordering) (dflt : V) : MOp K V → List (K × V) → Option (List (K × V))
+  | .set k v, l => Map.set cmp l k v
+  | .assign k v, l => Map.assign cmp l k dflt v
+  | .index k, l => (Map.index cmp l k dflt).map (·.1)
+  | .remove k, l => (Map.remove cmp l k).map (·.1)
+  | .clear, _ => some []
+  | .add d, l => Map.add cmp dflt l d
+
+/-- what the mathematical finite map does -/
+def MOp.spec (dflt : V) : MOp K V → FinMap K V → FinMap K V
+  | .set k v, f => f.set k v
+  | .assign k v, f => f.set k v
+  | .index k, f => f.touch k dflt
+  | .remove k, f => f.erase k
+  | .clear, _ => FinMap.empty
+  | .add d, f => f.merge (fun k => lookup k d)
+
+def runAll (cmp : K → K → Ordering) (dflt : V) : List (MOp K V) → List (K × V) → Option (List (K × V))
+  | [], l => some l
+  | o :: t, l => match o.run cmp dflt l with
+    | none => none
+    | some l' => runAll cmp dflt t l'
+
+def specAll (dflt : V) : List (MOp K V) → FinMap K V → FinMap K V
+  | [], f => f
+  | o :: t, f => specAll dflt t (o.spec dflt f)
+
+/-- every single operation keeps the array strictly ascending, never fails, and acts on the abstract map as
+the corresponding finite-map operation -/
+theorem map_op_refines {cmp : K → K → Ordering} (so : StrictOrder cmp) (dflt : V) (o : MOp K V)
+    (hadd : ∀ d, o = .add d → Sorted cmp d) {l : List (K × V)} (hs : Sorted cmp l) :
+    ∃ l', o.run cmp dflt l = some l' ∧ Sorted cmp l' ∧ ∀ k, lookup k l' = o.spec dflt (fun k => lookup k l) k := by
+  cases o with
+  | set k v =>
+    obtain ⟨l', h1, h2, h3⟩ := AslProofs.Map.set_spec so hs k v
+    exact ⟨l', h1, h2, fun x => by rw [h3 x]; rfl⟩
+  | assign k v =>
+    obtain ⟨l', h1, h2, h3⟩ := AslProofs.Map.assign_spec so hs k dflt v
+    exact ⟨l', h1, h2, fun x => by rw [h3 x]; rfl⟩
+  | index k =>
+    obtain ⟨l', p, h1, h2, _, h3⟩ := AslProofs.Map.index_spec so hs k dflt
+    exact ⟨l', by simp [MOp.run, h1], h2, fun x => by rw [h3 x]; rfl⟩
+  | remove k =>
+    obtain ⟨l', b, h1, h2, _, h3⟩ := AslProofs.Map.remove_spec so hs k
+    exact ⟨l', by simp [MOp.run, h1], h2, fun x => by rw [h3 x]; rfl⟩
+  | clear => exact ⟨[], rfl, List.Pairwise.nil, fun x => rfl⟩
+  | add d =>
+    obtain ⟨l', h1, h2, h3⟩ := AslProofs.Map.add_spec so dflt d (AslProofs.Map.Sorted.keysNodup so (hadd d rfl)) hs
+    exact ⟨l', h1, h2, fun x => by rw [h3 x]; rfl⟩
+
+/-- **ordered map = finite map, for every history.**  After any sequence of insertions, overwrites,
+`operator[]`, removals, clears and merges the array is strictly ascending and its abstract map is the result of
+the same history on `K → Option V`. -/
+theorem map_refines_finmap {cmp : K → K → Ordering} (so : StrictOrder cmp) (dflt : V) (ops : List (MOp K V))
+    (hadd : ∀ d, .add d ∈ ops → Sorted cmp d) :
+    ∀ {l : List (K × V)}, Sorted cmp l →
+    ∃ l', runAll cmp dflt ops l = some l' ∧ Sorted cmp l' ∧
+      ∀ k, lookup k l' = specAll dflt ops (fun k => lookup k l) k := by
+  induction ops with
+  | nil => intro l hs; exact ⟨l, rfl, hs, fun _ => rfl⟩
+  | cons o t ih =>
+    intro l hs
+    obtain ⟨l1, h1, hs1, a1⟩ := map_op_refines so dflt o (fun d e => hadd d (by rw [e]; simp)) hs
+    obtain ⟨l2, h2, hs2, a2⟩ := ih (fun d hd => hadd d (List.mem_cons_of_mem _ hd)) hs1
+    refine ⟨l2, by simp [runAll, h1, h2], hs2, ?_⟩
+    intro k
+    rw [a2 k]
+    simp only [specAll]
+    congr 1
+    funext x; exact a1 x
+
+/-- **lookups find precisely the keys present with their latest values**: `find`, `has`, `get` (and the const
+`operator[]`) of a strictly ascending array are the abstract lookup -/
+theorem map_lookups {cmp : K → K → Ordering} (so : StrictOrder cmp) {l : List (K × V)} (hs : Sorted cmp l) (key : K) (dflt : V) :
+    Map.find cmp l key = some (lookup key l) ∧
+    Map.has cmp l key = some (lookup key l).isSome ∧
+    Map.get cmp l key dflt = some ((lookup key l).getD dflt) :=
+  ⟨AslProofs.Map.find_spec so hs key, AslProofs.Map.has_spec so hs key, AslProofs.Map.get_spec so hs key dflt⟩
+
+/-- the value `operator[]` refers to is the stored one, or the default it has just created -/
+theorem map_index_value {cmp : K → K → Ordering} (so : StrictOrder cmp) {l : List (K × V)} (hs : Sorted cmp l) (key : K) (dflt : V) :
+    ∃ l' p, Map.index cmp l key dflt = some (l', p) ∧ ∃ h : p < l'.length, l'[p] = (key, (lookup key l).getD dflt) := by
+  obtain ⟨l', p, h1, _, h2, _⟩ := AslProofs.Map.index_spec so hs key dflt
+  exact ⟨l', p, h1, h2⟩
+
+/-- **enumeration and length**: `keys()` / enumeration is strictly ascending, visits exactly the keys present,
+each once, and `length()` is the number of distinct keys -/
+theorem map_enumeration {cmp : K → K → Ordering} (so : StrictOrder cmp) {l : List (K × V)} (hs : Sorted cmp l) :
+    (Map.keys l).Pairwise (fun a b => cmp a b = .lt) ∧ (Map.keys l).Nodup ∧ l.length = (Map.keys l).length ∧
+    (∀ k, k ∈ Map.keys l ↔ (lookup k l).isSome) ∧ (∀ k v, (k, v) ∈ l ↔ lookup k l = some v) := by
+  refine ⟨(AslProofs.Map.sorted_iff_keys l).mp hs, ?_, by simp [Map.keys], ?_, ?_⟩
+  · exact (AslProofs.HashMap.keysNodup_iff l).mp (AslProofs.Map.Sorted.keysNodup so hs)
+  · intro k; exact AslProofs.Map.lookup_isSome_iff.symm
+  · intro k v
+    exact ⟨AslProofs.Map.lookup_of_mem (AslProofs.Map.Sorted.keysNodup so hs), AslProofs.Map.lookup_mem⟩
+
+/-- **`==` depends only on contents** -/
+theorem map_eq_iff [DecidableEq V] {cmp : K → K → Ordering} (so : StrictOrder cmp) {a b : List (K × V)}
+    (ha : Sorted cmp a) (hb : Sorted cmp b) : Map.eq a b = true ↔ ∀ k, lookup k a = lookup k b := by
+  rw [AslProofs.Map.eq_true_iff]
+  exact ⟨fun e => by subst e; intro k; rfl, AslProofs.Map.sorted_ext so ha hb⟩
+
+end Ordered
+
+/-! ## hash map (`HashMap`, `HashDic`) — for an arbitrary hash function -/
+section Hashed
+variable {K V : Type} [DecidableEq K]
+
+/-- every bucket index computed by `binOf` is inside the table -/
+theorem binOf_in_bounds (h : K → Nat) {nb : Nat} (hnb : 0 < nb) (k : K) : HashMap.binOf h nb k < nb :=
+  AslProofs.HashMap.binOf_lt h hnb k
+
+/-- a fresh table is well-formed and empty -/
+theorem hashmap_empty (h : K → Nat) {nb : Nat} (hnb : 0 < nb) :
+    Inv h (HashMap.empty nb : HashMap.HM K V) ∧ ∀ k, abs (HashMap.empty nb : HashMap.HM K V) k = none :=
+  AslProofs.HashMap.empty_inv h hnb
+
+/-- **lookups**: walking only the chain of bucket `binOf key` finds exactly what a linear search over the whole
+enumeration finds -/
+theorem hashmap_lookups {h : K → Nat} {m : HashMap.HM K V} (inv : Inv h m) (key : K) (dflt : V) :
+    HashMap.find h m key = abs m key ∧ HashMap.has h m key = (abs m key).isSome ∧
+    HashMap.get h m key dflt = (abs m key).getD dflt := by
+  refine ⟨AslProofs.HashMap.find_eq_abs inv.wf key, AslProofs.HashMap.has_eq_abs inv.wf key, ?_⟩
+  unfold HashMap.get; rw [AslProofs.HashMap.find_eq_abs inv.wf key]
+
+/-- **growth is invisible**: `rehash()` keeps the invariant and the abstract map, whatever the fill -/
+theorem rehash_preserves_abs {h : K → Nat} {m : HashMap.HM K V} (inv : Inv h m) :
+    Inv h (HashMap.rehash h m) ∧ ∀ k, abs (HashMap.rehash h m) k = abs m k :=
+  AslProofs.HashMap.rehash_spec inv
+
+/-- **enumeration and length**: `length()` is the number of enumerated entries, every key is enumerated once,
+and the enumerated pairs are exactly the abstract map -/
+theorem hashmap_enumeration {h : K → Nat} {m : HashMap.HM K V} (inv : Inv h m) :
+    m.n = (HashMap.enum m).length ∧ ((HashMap.enum m).map (·.1)).Nodup ∧
+    ∀ k v, (k, v) ∈ HashMap.enum m ↔ abs m k = some v :=
+  ⟨inv.count, AslProofs.HashMap.keys_nodup inv, AslProofs.HashMap.mem_enum_iff inv⟩
+
+inductive HOp (K V : Type) where
+  | assign (k : K) (v : V)
+  | index (k : K)
+  | remove (k : K)
+  | clear
+  | dup
+
+def HOp.run (h : K → Nat) (dflt : V) : HOp K V → HashMap.HM K V → HashMap.HM K V
+  | .assign k v, m => HashMap.assign h dflt m k v
+  | .index k, m => HashMap.index h dflt m k
+  | .remove k, m => HashMap.remove h m k
+  | .clear, m => HashMap.clear m
+  | .dup, m => HashMap.dup h dflt m
+
+def HOp.spec (dflt : V) : HOp K V → FinMap K V → FinMap K V
+  | .assign k v, f => f.set k v
+  | .index k, f => f.touch k dflt
+  | .remove k, f => f.erase k
+  | .clear, _ => FinMap.empty
+  | .dup, f => f
+
+theorem hashmap_op_refines {h : K → Nat} (dflt : V) (o : HOp K V) {m : HashMap.HM K V} (inv : Inv h m) :
+    Inv h (o.run h dflt m) ∧ ∀ k, abs (o.run h dflt m) k = o.spec dflt (abs m) k := by
+  cases o with
+  | assign k v => exact AslProofs.HashMap.assign_spec inv dflt k v
+  | index k => exact AslProofs.HashMap.index_spec inv dflt k
+  | remove k =>
+    obtain ⟨i, _, a⟩ := AslProofs.HashMap.remove_spec inv k
+    exact ⟨i, a⟩
+  | clear =>
+    obtain ⟨i, _, a⟩ := AslProofs.HashMap.clear_spec inv
+    exact ⟨i, a⟩
+  | dup => exact AslProofs.HashMap.dup_spec inv dflt
+
+/-- **hash map = finite map, for every history, every hash function, every table size.**  The invariant
+(chains duplicate-free, every key in bucket `binOf key`, count = number of entries) is preserved by
+`operator[]`, `set`, `remove`, `clear`, `rehash` (inside `operator[]`) and `dup`/`clone`, and the abstract map is
+the result of the same history on `K → Option V`. -/
+theorem hashmap_refines_finmap (h : K → Nat) (dflt : V) (ops : List (HOp K V)) :
+    ∀ {m : HashMap.HM K V}, Inv h m →
+    Inv h (ops.foldl (fun m o => o.run h dflt m) m) ∧
+    ∀ k, abs (ops.foldl (fun m o => o.run h dflt m) m) k = ops.foldl (fun f o => o.spec dflt f) (abs m) k := by
+  induction ops with
+  | nil => intro m inv; exact ⟨inv, fun _ => rfl⟩
+  | cons o t ih =>
+    intro m inv
+    obtain ⟨i1, a1⟩ := hashmap_op_refines dflt o inv
+    obtain ⟨i2, a2⟩ := ih i1
+    refine ⟨i2, ?_⟩
+    intro k
+    simp only [List.foldl_cons]
+    rw [a2 k]
+    have : abs (o.run h dflt m) = o.spec dflt (abs m) := funext a1
+    rw [this]
+
+/-- **`==` depends only on contents**: for two tables of any sizes with any histories (same hash function),
+`operator==` holds iff the abstract maps are equal -/
+theorem hashmap_eq_iff [DecidableEq V] {h : K → Nat} {a b : HashMap.HM K V} (ia : Inv h a) (ib : Inv h b) :
+    HashMap.eq h a b = true ↔ ∀ k, abs a k = abs b k :=
+  AslProofs.HashMap.eq_iff ia ib
+
+/-- equal contents ⇒ the two enumerations are permutations of each other (insertion order, bucket sharing
+and growth only permute the enumeration) -/
+theorem hashmap_enum_perm {h : K → Nat} {a b : HashMap.HM K V} (ia : Inv h a) (ib : Inv h b)
+    (e : ∀ k, abs a k = abs b k) : (HashMap.enum a).Perm (HashMap.enum b) :=
+  AslProofs.HashMap.enum_perm_of_abs_eq ia ib e
+
+end Hashed
+
+/-! ## `Set` -/
+section Sets
+variable {K : Type} [DecidableEq K]
+open HashMap (HSet)
+
+/-- membership as the code tests it (`contains(x)` = `has(x)`) -/
+abbrev Mem (h : K → Nat) (s : HSet K) (x : K) : Prop := HashMap.has h s x = true
+
+theorem set_insert_spec {h : K → Nat} {s : HSet K} (inv : Inv h s) (x : K) :
+    Inv h (HashMap.sIns h s x) ∧ ∀ y, Mem h (HashMap.sIns h s x) y ↔ (y = x ∨ Mem h s y) := by
+  obtain ⟨i, a⟩ := AslProofs.HashMap.sIns_spec inv x
+  exact ⟨i, fun y => by simp [Mem, a y]⟩
+
+theorem set_remove_spec {h : K → Nat} {s : HSet K} (inv : Inv h s) (x : K) :
+    Inv h (HashMap.remove h s x) ∧ ∀ y, Mem h (HashMap.remove h s x) y ↔ (y ≠ x ∧ Mem h s y) := by
+  obtain ⟨i, _, a⟩ := AslProofs.HashMap.remove_spec inv x
+  refine ⟨i, ?_⟩
+  intro y
+  simp only [Mem, AslProofs.HashMap.has_eq_abs i.wf, AslProofs.HashMap.has_eq_abs inv.wf, a y]
+  by_cases hy : y = x <;> simp [hy]
+
+theorem set_from_array_spec {h : K → Nat} (xs : List K) :
+    Inv h (HashMap.sFromList h xs) ∧ ∀ y, Mem h (HashMap.sFromList h xs) y ↔ y ∈ xs :=
+  AslProofs.HashMap.sFromList_spec xs
+
+theorem set_union_spec {h : K → Nat} {a s : HSet K} (ia : Inv h a) (is : Inv h s) :
+    Inv h (HashMap.sUnion h a s) ∧ ∀ y, Mem h (HashMap.sUnion h a s) y ↔ (Mem h a y ∨ Mem h s y) := by
+  obtain ⟨i, e⟩ := AslProofs.HashMap.sUnion_spec ia is
+  exact ⟨i, fun y => by simp [Mem, e y]⟩
+
+theorem set_inter_spec {h : K → Nat} {a s : HSet K} (ia : Inv h a) :
+    Inv h (HashMap.sIn h a s) ∧ ∀ y, Mem h (HashMap.sIn h a s) y ↔ (Mem h a y ∧ Mem h s y) := by
+  obtain ⟨i, e⟩ := AslProofs.HashMap.sIn_spec (s := s) ia
+  exact ⟨i, fun y => by simp [Mem, e y]⟩
+
+theorem set_diff_spec {h : K → Nat} {a s : HSet K} (ia : Inv h a) :
+    Inv h (HashMap.sNotIn h a s) ∧ ∀ y, Mem h (HashMap.sNotIn h a s) y ↔ (Mem h a y ∧ ¬ Mem h s y) := by
+  obtain ⟨i, e⟩ := AslProofs.HashMap.sNotIn_spec (s := s) ia
+  exact ⟨i, fun y => by simp [Mem, e y]⟩
+
+theorem set_add_all_spec {h : K → Nat} {a s : HSet K} (ia : Inv h a) (is : Inv h s) :
+    Inv h (HashMap.sAddAll h a s) ∧ ∀ y, Mem h (HashMap.sAddAll h a s) y ↔ (Mem h a y ∨ Mem h s y) := by
+  obtain ⟨i, e⟩ := AslProofs.HashMap.sAddAll_spec ia is
+  exact ⟨i, fun y => by simp [Mem, e y]⟩
+
+theorem set_contains_spec {h : K → Nat} {a s : HSet K} (is : Inv h s) :
+    (HashMap.sContainsAll h a s = true ↔ ∀ y, Mem h s y → Mem h a y) ∧
+    (HashMap.sContainsAny h a s = true ↔ ∃ y, Mem h s y ∧ Mem h a y) :=
+  ⟨AslProofs.HashMap.sContainsAll_spec is, AslProofs.HashMap.sContainsAny_spec is⟩
+
+/-- **set equality depends only on membership** (not on insertion order, shared buckets or table growth) -/
+theorem set_eq_iff {h : K → Nat} {a s : HSet K} (ia : Inv h a) (is : Inv h s) :
+    HashMap.sEq h a s = true ↔ ∀ y, (Mem h a y ↔ Mem h s y) := by
+  rw [AslProofs.HashMap.sEq_iff ia is]
+  constructor
+  · intro e y; simp [Mem, e y]
+  · intro e y; exact Bool.eq_iff_iff.mpr (e y)
+
+/-- `array()` lists every member exactly once and `length()` is their number -/
+theorem set_array_spec {h : K → Nat} {s : HSet K} (inv : Inv h s) :
+    (HashMap.sArray s).Nodup ∧ (HashMap.sArray s).length = s.n ∧ ∀ y, y ∈ HashMap.sArray s ↔ Mem h s y := by
+  refine ⟨AslProofs.HashMap.keys_nodup inv, by simp [HashMap.sArray, inv.count], ?_⟩
+  intro y; exact AslProofs.HashMap.mem_keys_iff inv y
+
+end Sets
+
+/-! ## the two defects repaired in /repo (d4d2172, 12cf1de): the specification rejects the old code -/
+section Old
+
+/-- `HashMap::remove` before d4d2172: a removed chain head set the bucket to null -/
+def chainRemoveOld (key : Int) : List (Int × Int) → List (Int × Int)
+  | [] => []
+  | (k, v) :: t => if k = key then [] else (k, v) :: (HashMap.chainRemove key t).1
+
+def removeOld (h : Int → Nat) (m : HashMap.HM Int Int) (key : Int) : HashMap.HM Int Int :=
+  let bin := HashMap.binOf h m.buckets.length key
+  let c := m.buckets.getD bin []
+  ⟨m.buckets.set bin (chainRemoveOld key c), if HashMap.chainHas key c then m.n - 1 else m.n⟩
+
+/-- `operator==` before 12cf1de: lock-step walk of both enumerations -/
+def eqOld (a b : HashMap.HM Int Int) : Bool :=
+  if a.n ≠ b.n then false
+  else ((HashMap.enum a).zip (HashMap.enum b)).all (fun p => decide (p.1.1 = p.2.1) && decide (p.1.2 = p.2.2))
+
+def tbl (ks : List Int) : HashMap.HM Int Int :=
+  ks.foldl (fun m k => HashMap.assign HashMap.hashInt 0 m k (k + 100)) (HashMap.empty 4)
+
+def removeOld_full : Prop :=
+  ∀ (m : HashMap.HM Int Int) (key k : Int), Inv HashMap.hashInt m →
+    abs (removeOld HashMap.hashInt m key) k = FinMap.erase (abs m) key k
+
+/-- removing the chain head `1` of `{1,5,9}` (one bucket of a 4-slot table) loses `5` -/
+theorem hashmap_remove_head_counterexample : ¬ removeOld_full := by
+  intro hf
+  have inv : Inv HashMap.hashInt (tbl [1, 5, 9]) :=
+    (hashmap_refines_finmap HashMap.hashInt 0 [.assign 1 101, .assign 5 105, .assign 9 109]
+      (hashmap_empty HashMap.hashInt (by decide)).1).1
+  have := hf (tbl [1, 5, 9]) 1 5 inv
+  revert this
+  decide
+
+def eqOld_full : Prop :=
+  ∀ (a b : HashMap.HM Int Int), Inv HashMap.hashInt a → Inv HashMap.hashInt b →
+    (eqOld a b = true ↔ ∀ k, abs a k = abs b k)
+
+/-- `{1,5}` built in the two orders compared unequal -/
+theorem hashmap_eq_order_counterexample : ¬ eqOld_full := by
+  intro hf
+  have i1 : Inv HashMap.hashInt (tbl [1, 5]) :=
+    (hashmap_refines_finmap HashMap.hashInt 0 [.assign 1 101, .assign 5 105]
+      (hashmap_empty HashMap.hashInt (by decide)).1).1
+  have i2 : Inv HashMap.hashInt (tbl [5, 1]) :=
+    (hashmap_refines_finmap HashMap.hashInt 0 [.assign 5 105, .assign 1 101]
+      (hashmap_empty HashMap.hashInt (by decide)).1).1
+  have h1 : eqOld (tbl [1, 5]) (tbl [5, 1]) = false := by decide
+  have h2 : HashMap.eq HashMap.hashInt (tbl [1, 5]) (tbl [5, 1]) = true := by decide
+  have := (hf _ _ i1 i2).mpr ((hashmap_eq_iff i1 i2).mp h2)
+  rw [h1] at this
+  cases this
+
+end Old
+
+/-! ## non-vacuity: the hypotheses are met by concrete non-trivial values -/
+
+example : Sorted Map.cmpInt [((1 : Int), (10 : Int)), (5, 50), (9, 90)] := by
+  unfold Sorted; decide
+
+example : Map.indexOf Map.cmpInt [((1 : Int), (10 : Int)), (5, 50), (9, 90)] 5 = some 1 := by decide
+example : Map.indexOf Map.cmpInt [((1 : Int), (10 : Int)), (5, 50), (9, 90)] 6 = some (-3) := by decide
+example : Map.indexOf Map.cmpInt [((1 : Int), (10 : Int)), (5, 50), (9, 90)] 0 = some (-1) := by decide
+example : Map.indexOf Map.cmpInt [((1 : Int), (10 : Int)), (5, 50), (9, 90)] 10 = some (-4) := by decide
+
+example : Sorted Map.cmpBytes [(([65, 98] : List UInt8), (1 : Int)), ([66, 65], 2)] := by
+  unfold Sorted; decide
+
+/-- a table with three keys in one chain, after a removal of the chain head -/
+example : (HashMap.enum (HashMap.remove HashMap.hashInt (tbl [1, 5, 9]) 1)) = [(5, 105), (9, 109)] := by decide
+
+/-- "Ab" and "BA" have the same asl hash (the collision named in the property) -/
+example : HashMap.hashBytes [65, 98] = HashMap.hashBytes [66, 65] := by decide
+
 end C02
